@@ -8,7 +8,7 @@ import parserutil
 from core import hx, exc_name
 
 ID = 'C06'
-MODULES = ['Httoop.Props.C06', 'Httoop.Props.C06Invariant', 'Httoop.Props.C06Host']
+MODULES = ['Httoop.Props.C06', 'Httoop.Props.C06Invariant', 'Httoop.Props.C06Host', 'Httoop.Props.C06Trailers']
 THEOREMS = [
 	'Httoop.Parser.fixed_path_clean',
 	'Httoop.Parser.delivered_path_clean',
@@ -27,6 +27,11 @@ THEOREMS = [
 	'Httoop.Host.host_no_delimiter',
 	'Httoop.Host.hostname_class_table',
 	'Httoop.Host.c06_host_witness',
+	'Httoop.Parser.host_forbidden_in_trailers',
+	'Httoop.Parser.mergeTrailers_host_untouched',
+	'Httoop.Parser.parseTrailers_host_untouched',
+	'Httoop.Parser.tree_env_host_forbidden',
+	'Httoop.Parser.host_trailer_witness',
 ]
 TRUSTED = [
 	'the URI model (parse, normalize) of C10-C12 and the Host model (Model/Host.lean incl. the glibc inet_pton transcription) are tied by their own correspondences; hosts needing the idna codec are outside the model (skipped)',
@@ -90,6 +95,11 @@ def cases(rng, tier):
 			yield ('t', target, h1, rng.choice([b'1.1', b'1.1', b'1.0']), method, h2)
 			continue
 		yield ('t', target, rng.choice(HOSTS), rng.choice([b'1.1', b'1.1', b'1.0']), method)
+		if rng.random() < 0.05:
+			# a chunked request whose trailer section carries a Host field (announced in Trailer or not): whatever is delivered,
+			# its Host field is still the one its host and port were taken from
+			yield ('tt', target if target.startswith(b'/') else b'/x', rng.choice([b'good.example', b'h:81', b'[::1]']), b'1.1', b'POST',
+				rng.choice([b'Host', b'host', b'X-A, Host', b'HOST, X-A', b'X-A']), rng.choice([b'evil.example', b'h:82', b'good.example', b'']))
 
 
 def search(rng, res):
@@ -102,6 +112,9 @@ def stream(case):
 	lines = [method + b' ' + target + b' HTTP/' + version]
 	if host is not None:
 		lines.append(b'Host: ' + host)
+	if case[0] == 'tt':
+		lines += [b'Transfer-Encoding: chunked', b'Trailer: ' + case[5]]
+		return b'\r\n'.join(lines) + b'\r\n\r\n1\r\nx\r\n0\r\nHost: ' + case[6] + b'\r\n\r\n'
 	if len(case) > 5:
 		lines.append(b'X-Between: 1')
 		lines.append(b'host: ' + case[5])
@@ -180,7 +193,11 @@ def oracle(case):
 			bad.append('scheme %r' % u.scheme)
 		if u.username or u.password or u.fragment:
 			bad.append('user information or fragment present')
-		if len(case) > 5:
+		if case[0] == 'tt':
+			dh = req.headers.get('Host')
+			if dh is None or dh.strip() != case[2].decode('latin-1'):
+				bad.append('the Host field of the delivered request is %r: the trailer section changed it after host and port were taken from %r' % (dh, case[2]))
+		if len(case) > 5 and case[0] == 't':
 			bad.append('delivered although the Host field was sent twice (%r and %r)' % (case[2], case[5]))
 		host = case[2]
 		if host is not None:
@@ -232,11 +249,11 @@ def tally(case, res):
 
 
 def describe(case):
-	return ['t'] + [x.hex() if isinstance(x, bytes) else x for x in case[1:]]
+	return [case[0]] + [x.hex() if isinstance(x, bytes) else x for x in case[1:]]
 
 
 def undescribe(d):
-	return tuple(['t'] + [bytes.fromhex(x) if isinstance(x, str) else x for x in d[1:]])
+	return tuple([d[0]] + [bytes.fromhex(x) if isinstance(x, str) else x for x in d[1:]])
 
 
 def finding_still_fails(k):
@@ -245,5 +262,5 @@ def finding_still_fails(k):
 
 LEVEL_TEXT = ('Theorems for ALL request lines (every octet string as target): a request that gets past the start-line hooks has a path that normalisation leaves unchanged, hence - by C11\'s abspath theorems - is "*", empty, or starts with "/" '
 	'and has no "." / ".." / empty segment and no slash run, whatever percent-encoding spelled the dots (they are decoded before the comparison; an encoded slash stays inside its segment); its scheme class is http/https, it has no user information or fragment; '
-	'anything else is a 301/400/505. As an INVARIANT OF THE STATE MACHINE (delivered_requests_sanitised): for every sequence of parse() calls with any octets, every request handed out has such a URI - the start-line phase establishes it, every later phase (header blocks, Host hook, body, trailers, delivery) leaves path, user information and fragment untouched, across calls. Host and port are set from the parsed Host field. Tied by correspondence over the token alphabet x Host forms.')
+	'anything else is a 301/400/505. As an INVARIANT OF THE STATE MACHINE (delivered_requests_sanitised): for every sequence of parse() calls with any octets, every request handed out has such a URI - the start-line phase establishes it, every later phase (header blocks, Host hook, body, trailers, delivery) leaves path, user information and fragment untouched, across calls. Host and port are set from the parsed Host field, and the trailer section of a chunked request cannot change that field afterwards (Props/C06Trailers.lean: Host is among the names a Trailer field must not announce - table of the tree, T1, since the F68 repair - hence mergeTrailers_host_untouched / parseTrailers_host_untouched for every state and section). Tied by correspondence over the token alphabet x Host forms.')
 LEVEL_NOTE = 'Trusted: Lean kernel; URI/Host models tested against the code (inet_pton transcription validated on 180k addresses); idna hosts skipped.'
